@@ -25,6 +25,14 @@ CHECKS = {
    note="scipy LSODA trusted as a black box; updates that raise without an injected fault count as rejected (coverage floor: >= 50% of fault-free updates must complete); matrix_diffusion orthonormality loss is a listed known finding",
    technique="deterministic simulation: seeded histories with fault injection, invariants after every event",
  ),
+ "C07": dict(
+   engine="world",
+   category="fault_enumeration",
+   text="Faults (callback raises, malformed / non-finite return values, unsupported regime from get_regime, solver reporting failure, params key vanishing, phase missing from the assemblage) are injected inside real update_orientations calls at instants found by dry-running the update on a never-faulted twin; for up to two updates per run the fault is injected at EVERY callback / solver-step / key-read index (<= 64 instants, else evenly spread). After each injection: the call raised and the history lists are the same objects with unchanged length and unchanged snapshot hashes on every mineral of the world, or the call succeeded with the complete result of the twin; the first fault-free retry reproduces the twin within the solver-step budget. Rejection clause: unsupported and out-of-range regimes (also appearing mid-interval), mismatched fabrics, invalid phases must raise. Null-forcing clause: L == 0, gated-to-zero L, viscosity-bound regimes and M* = 0 histories leave orientations / fractions unchanged to 1e-12 (modulo the documented floor-and-renormalise of grains below the sliding threshold) while F follows the reference integrator.",
+   design_ref="DESIGN.md 4.5",
+   note="asynchronous exceptions between bytecodes are not injected; scipy LSODA trusted; for non-finite/malformed L the only demand is 'if it raises, history is untouched'; mismatched (phase, fabric) only required to be rejected in dislocation-type regimes",
+   technique="deterministic simulation: fault injection enumerated over every collaborator call index of an update, reference twin",
+ ),
 }
 
 def build():
